@@ -133,7 +133,7 @@ def correspond(ctx, scale):
         failures.append({'key': f'{m["scenario"]}:model:code{code}', 'what': f'{m["scenario"]} (world {m["world"]}) step {m["step"]}: the ranks\' state differs from the model stepped on the concatenated batch ({c03.CODES.get(code, code)})',
                          'case': dict(m, term=cases[i][:30000])})
     return {'evaluations': ev, 'distinct_nontrivial': nt,
-            'rule': 'real gloo process groups over loopback (file:// rendezvous), world sizes ' + str(worlds) + ', unequal per-rank batch sizes, independent RNG streams, multi-step histories, 20 scenarios (four with fewer tokens than requested samples, two with a k-means-initialised codebook outside the EMA) (two with ragged masks and one rank all padding on odd steps) '
+            'rule': 'real gloo process groups over loopback (file:// rendezvous), world sizes ' + str(worlds) + ', unequal per-rank batch sizes, independent RNG streams, multi-step histories, 21 scenarios (four with fewer tokens than requested samples, one with the default sync_codebook, two with a k-means-initialised codebook outside the EMA) (two with ragged masks and one rank all padding on odd steps) '
                     '(Euclidean / cosine / separate heads EMA, expiry, k-means init, ResidualVQ per-layer + dropout and shared, LFQ): per-rank state_dict bit-equal across ranks after every step; EMA path bit-equal to a single process on the concatenated batch '
                     'and equal to the Coq model step on that batch; dropout depth equal across ranks; LFQ batch entropy = entropy of the rank-averaged distribution; non-trivial = ranks hold different batches (always)',
             'samples': samples, 'failures': failures, 'distribution': dist}
